@@ -35,8 +35,13 @@ ASSUMPTIONS = [
     "uploads, not inside one; the abort is imposed right after an upload attempt (BaseException out of put_file)",
     "uploads are sequential (jobs=1; dvc_objects uses batch_size=1 for local->local copies); the orders of the "
     "directory loop and of the uploads are observed and passed to the model as oracle arguments",
-    "objects are planted with mode 0o444: a LocalHashFileDB trusts them by mode (re-hashing and removing unprotected "
-    "corrupt objects during status is C07's subject)",
+    "source, cache_odb and base-class stores: objects (corrupt ones included) are planted write-protected (0o444; a "
+    "LocalHashFileDB trusts them by mode, a base-class store only looks at existence). Local-class DESTINATION: an "
+    "unprotected copy (mode != 0o444) whose bytes do not hash to its id is not vouched for and counts as ABSENT at "
+    "the start of a round, because status() re-hashes and removes it (one rule, os.stat + hashlib: "
+    "_transfer_common.effective_store); such copies are only pre-seeded without a destination index and for ids "
+    "the status query covers",
+    "requested HashInfos may carry a descriptive label (obj_name); the harness compares ids by .value only",
     "directory objects in play are genuine (bytes hash to the id) and flat; the request is closed and the "
     "destination is closed at the start of the round (the property's quantifier); with a destination index the round "
     "is audited when the index is sound (every key present) or stale in the way the real validation detects (a "
@@ -72,6 +77,9 @@ def _judge_and_register(ctx, S, notes, items):
         ctx.count(k if k.startswith("judged:") else "excluded:" + k, v)
     if case.get("dst_state"):
         ctx.count("dst-state")
+    if case.get("labels"):
+        ctx.count("labelled-request")
+    ctx.count("status-phase-removals", sum(len(ob.get("status_drops") or []) for ob in S.rounds))
     ctx.count("rounds", len(S.rounds))
     ctx.count("crash-rounds", sum(1 for ob in S.rounds if ob["crash"] is not None))
     ctx.count("audited-rounds", sum(1 for ob in S.rounds if TC.c04_preconditions(S, ob) is None))
@@ -132,6 +140,12 @@ def _chains(ctx, items):
         ctx.count("chain:corpus-salt=" + salt)
         for cls in ("local", "base"):
             n += _chain_rounds(ctx, case, ["f1"], cls, shallow and cls == "base", items, ["corpus", "chain"])
+        if shallow:
+            # the same chain with every requested id labelled (HashInfo.obj_name)
+            lab = copy.deepcopy(case)
+            lab["labels"] = {t: ("chain/" + t) for t in lab["req"]}
+            for cls in ("local", "base"):
+                n += _chain_rounds(ctx, lab, ["f1"], cls, False, items, ["corpus", "chain", "labels:all"])
     want = 3 if ctx.tier != "thorough" else 6
     for _ in range(ctx.n(2, 4)):
         shallow = ctx.rng.random() < 0.5
@@ -139,6 +153,8 @@ def _chains(ctx, items):
         seen = {}
         for _draw in range(30):
             case = TC.chain_case("%08x" % ctx.rng.getrandbits(32), shallow, size)
+            if ctx.rng.random() < 0.4:
+                case["labels"] = TC.make_labels(ctx.rng, case, list(case["req"]))
             _ups, order = TC.probe_round(ctx, case)
             seen.setdefault(TC.chain_order(order), case)
             if "ABC" in seen and len(seen) >= want:
@@ -207,6 +223,8 @@ def run(ctx):
                 case["dst_cls"] = cls
                 case["dix"] = dix
                 case["rounds"] = []
+                if ctx.rng.random() < (0.6 if cls == "local" and not dix else 0.0) and TC.add_rot(ctx.rng, case, notes, "C04"):
+                    ctx.count("dst-rot")
                 if (cls, dix) not in probed or not F:
                     probed.add((cls, dix))
                     case["rounds"].append({"fails": [], "crash": None, "reset": True})
